@@ -465,8 +465,43 @@ def contracts():
 TRUSTED = ['pyvc symbolic executor and its Python model; dicts with symbolic keys read as association lists',
            "str.split as an external (names free of ',' and ':'); substring test on a specification string: true for its parts, unconstrained otherwise",
            'generator _argument_to_array evaluated eagerly (its consumers exhaust it at once)',
-           'Array.cast is the identity on arrays; the Argument constructor stores name, shape, dtype']
+           'Array.cast is the identity on arrays; the Argument constructor stores name, shape, dtype (default dtype float, no spaces, arguments {name: (shape, dtype)})',
+           # c13_ext
+           '@nutils_dispatch is transparent for arguments without __nutils_dispatch__ (decorator dropped)',
+           'shapes of unknown rank: uninterpreted sort with tuple concatenation, len(s + t) == len(s) + len(t); frozenset union with s | {} == s',
+           'function.Array metadata of `*`/`+` (function._Wrapper over the broadcast operands): shape = numpy broadcast with broadcast(s + t, t) == s + t and broadcast(s, s) == s, '
+           'dtype promotion with promote(d, d) == d, spaces = union, arguments = _join_arguments (REAL body) of the operands; numpy.sum over the axes len(s)..len(s)+len(t)-1 of shape s + t '
+           'leaves s and keeps int/float/complex dtype, spaces, arguments; util.sum = functools.reduce(operator.add) (TypeError when empty) -- cross-checked in native/axioms_c13.py',
+           'tuple(g(n) for n in shape) over a shape of unknown rank is the elementwise map (g evaluated once on a generic element); evaluable.Argument/constant are recorded, not executed',
+           # c13_runtime
+           '_pyast expression builders (Variable, LiteralStr, BinOp, get_attr, call, get_item) denote the Python expressions they print; _BlockBuilder.assign_to/if_/raise_ emit '
+           '`lhs = rhs` / `if c:` / `raise e` (their locking discipline is C16, faithful printing is C02: not applicable); builder.compile(self.shape) is a variable holding the declared shape; '
+           'numpy.asarray(v, dtype=...) has shape numpy.shape(v) (no broadcasting); tuple != on shapes is inequality',
+           # c13_dag
+           '_util._reduce: Node -> (constructor, children), Argument -> (Argument, (name, shape, dtype)), non-empty tuple -> (_tuple, items), terminals/empty containers -> None; '
+           'util.IDDict is a mapping keyed by identity; collections.namedtuple; functools.wraps is transparent; evaluable.asarray is the identity on Arrays; '
+           '_any_certainly_different(s1, s2) implies s1 != s2; zeros_like(a) is the zero array of the shape and dtype of a',
+           # c13_degree
+           'degree MEANING per node class (contracts/c13_degree.py KIND): deg(f g) <= deg f + deg g; deg(f + g) <= max; deg(f ** p) <= p deg f for a constant scalar non-negative integer p '
+           '(.simplified, unalign, Cast keep the value of the exponent); an Argument has degree 1 in itself; Monomial <= deg(values) + sum deg(args); InsertAxis, Transpose, Sum, TakeDiag, Take, '
+           'Inflate, Diagonalize, Ravel, Unravel, LoopSum, LoopConcatenate are linear in `func` when their other Array operands do not depend on the argument; a node independent of the '
+           'argument is polynomial of degree 0 -- cross-checked numerically (finite differences) in native/axioms_c13.py',
+           'structural induction over the expression DAG (rule contract + wrapper contract => every argument_degree is an upper bound): meta-argument, as in C06']
 ASSUMPTIONS = ['names, shapes, dtypes are arbitrary values with equality (uninterpreted sorts)',
-               'BOUNDED: the array has two arguments, one specification item per call (iterations are independent: meta-argument)']
-NOT_COVERED = ['that lowering / evaluable.replace_arguments / linearize / factor evaluate to the substituted value (semantic; needs array semantics)',
-               'derivative and linearize with respect to an argument']
+               'BOUNDED: the array has two arguments, one specification item per call (iterations are independent: meta-argument)',
+               'linearize: the specification names an argument of f (a foreign name or an empty specification makes util.sum raise TypeError: candidate defect, contracts parked in c13_ext.PARKED)',
+               'BOUNDED (c13_dag): expression DAGs T1..T5 (<= 5 nodes, depth <= 3, one shared interior node, one shared leaf, one tuple-valued field), two replacement keys k1 != k2, '
+               'argument shapes are irreducible objects (the real shapes are tuples of constants, which are traversed too)',
+               'c13_degree: index arrays of a Monomial are constants (call sites evaluable.factor and Monomial._derivative); for LoopConcatenate a loop length that depends on the '
+               'argument makes concat_length depend on it (call site evaluable.loop_concatenate); Multiply/Add have exactly two operands (class invariant); '
+               'BOUNDED: Monomial with <= 3 args, exponent of Power under <= 1 Cast',
+               'Argument._compile: `shape`, the variable for the node and its block come from the builder (C16 / C02 territory)']
+NOT_COVERED = ['that lowering evaluates to the substituted value on real arrays (semantic; needs array semantics) -- covered only structurally: evaluable.replace_arguments rebuilds the DAG with '
+               'the replacement objects in place (bounded DAG family)',
+               'values of derivative / linearize (only announced shape, dtype, spaces, arguments and the evaluable target are proved; values only in the native replays)',
+               'evaluable.factor itself (its queue loop needs eval_once, sparse extraction and simplification): only its ingredients zero_all_arguments, argument_degree, Monomial._derivative; '
+               'function.factor/_Factor',
+               'function.field / dotarg (needs the metadata of transpose, _append_axes and numpy.sum for tuple shapes: not done)',
+               'broadcast/promotion metadata of function arrays in general (assumed, see TRUSTED); _Replace.lower / _Derivative.lower',
+               'memoisation of irreducible objects in shallow_replace (str, type objects are visited once per occurrence: harmless, the callable is pure)',
+               'the exact degree (argument_degree is only proved to be an upper bound; e.g. u**0 is declined because the zero exponent simplifies to Zeros, not Constant)']
